@@ -46,7 +46,8 @@ theorem scalar_elem_roundtrip (c : Cfg) (k v : Nat) (rest : Bytes) (hv : v < 2 ^
   · simp only [encTy]
     have h1 : ¬ v ≥ 2 ^ backingOf (8 * k) := by omega
     have h2 : v ≤ maskBits (8 * k) := by unfold maskBits; omega
-    have h3 : ¬ v > maskBits (8 * k) := by omega
+    have h3 : elemOutOfRange c.mode (8 * k) v = false := by
+      unfold elemOutOfRange; cases c.mode <;> simp; omega
     simp [h1, h3]
   · simp only [decTy, Outcome.bind, getUint_putUint c.e k v rest hv]
 
